@@ -15,6 +15,7 @@ the database in a scripted order:
      in flight (real mark_job_started), before CALL schedule_job
   J  the job-private manager: REAL JobPrivateInstanceManager.create_instances_loop_body (only the VM creation is faked), the new
      instances activate, REAL schedule_jobs_loop_body; Jtimeout = the new instances are deactivated (activation_timeout) while pending
+  <step>~  the same step with an ambiguous commit (applied, reported as error 2013) at the first COMMIT the driver issues in it
   X  a second attempt id of a Running job reports job_started from another instance (real mark_job_started): an orphan attempt for loop O
   L  late canceller message: real driver.job.unschedule_job for the attempt whose completion was reported last
 
@@ -43,14 +44,15 @@ class FakePool:
 
     @property
     def healthy_instances_by_free_cores(self):
-        return sorted((i for i in self.w.instances.values() if i.state == 'active' and i.inst_coll.name == self.name and
-                       i.free_cores_mcpu > 0), key=lambda i: i.free_cores_mcpu)
+        # what Pool keeps incrementally (adjust_for_add/remove_instance): active, healthy instances sorted by in-memory free cores
+        import sortedcontainers
+        return sortedcontainers.SortedSet((i for i in self.w.instances.values() if i.state == 'active' and i.inst_coll.name == self.name),
+                                          key=lambda instance: instance.free_cores_mcpu)
 
     def get_instance(self, cores_mcpu, regions):
-        for i in self.healthy_instances_by_free_cores:
-            if i.free_cores_mcpu >= cores_mcpu:
-                return i
-        return None
+        # the REAL placement rule (Pool.get_instance: bisect over the sorted set, region and version filter)
+        from batch.driver.instance_collection.pool import Pool
+        return Pool.get_instance(self, cores_mcpu, regions)
 
     def __str__(self):
         return f'pool {self.name}'
@@ -79,6 +81,7 @@ class Actors:
         self.last_complete: Optional[Tuple] = None
         self.n_orphans = 0
         self.preempted_in_flight = 0
+        self.ambiguous_commits = 0
         self.started_in_flight = 0
         self.jp_timeouts = 0
         self._jpm = None
@@ -137,6 +140,37 @@ class Actors:
         return [j for j in self.w.db.tables['jobs'] if j['state'] == 'Running' and j['attempt_id'] is not None]
 
     def step(self, a: str):
+        if a.endswith('~'):
+            # the same step with an AMBIGUOUS COMMIT: the first COMMIT the driver issues during the step is applied by the server and
+            # reported as error 2013 (fakepool.commit_applied); gear.database re-runs the transaction / re-sends the CALL
+            import pymysql
+            import gear.database as gdbmod
+            from ..minisql import fakepool
+            pool = self.w.gdb.pool
+            fired = []
+
+            def hook(i, sql):
+                if sql == 'COMMIT' and not fired:
+                    fired.append(i)
+                    calls = [x[2] for x in pool.log[-6:] if x[2].lstrip().upper().startswith('CALL')]
+                    self.w.last_ambiguous_call = calls[-1].split('(')[0].split()[-1] if calls else 'transaction'
+                    return fakepool.commit_applied(pymysql.err.OperationalError(2013, 'Lost connection to MySQL server during query'))
+                return None
+
+            async def no_sleep(_tries):
+                return None
+            saved = gdbmod.sleep_before_try
+            gdbmod.sleep_before_try = no_sleep
+            pool.faults = hook
+            try:
+                self.step(a[:-1])
+            finally:
+                pool.faults = None
+                gdbmod.sleep_before_try = saved
+            self.log[-1] = a
+            if fired:
+                self.ambiguous_commits += 1
+            return
         w = self.w
         self.ts += 10
         self.log.append(a)
@@ -422,8 +456,13 @@ def free_cores(w, v: View) -> Optional[Tuple[str, str]]:
             cls = 'pending-instance-cores-not-released' if inst['state'] == 'pending' and free < want else f'{inst["state"]}-instance-free-cores-differ'
             return (cls, f'instance {name} ({inst["state"]}, {inst["cores_mcpu"]} mcpu): database free_cores_mcpu = {free}, expected {want}')
         mem = w.instances.get(name)
+        step = getattr(w, 'last_actor_step', '')
+        amb = f'-after-ambiguous-commit-of-{getattr(w, "last_ambiguous_call", "?")}' if step.endswith('~') else ''
+        if mem is not None and mem.state != inst['state'] and inst['state'] in ('inactive', 'deleted') and mem.state in ('pending', 'active'):
+            return ('in-memory-instance-state-stale' + amb, f'Instance {name} is {inst["state"]} in the database but still {mem.state} in the '
+                                                           f'driver\'s memory after step {step!r} (in-memory free cores {mem.free_cores_mcpu})')
         if mem is not None and mem.state == inst['state'] and mem.state in ('pending', 'active', 'inactive') and mem.free_cores_mcpu != free:
-            return ('in-memory-mirror-differs:' + inst['state'], f'Instance {name} ({inst["state"]}): in-memory free_cores_mcpu = '
+            return ('in-memory-mirror-differs:' + inst['state'] + amb, f'Instance {name} ({inst["state"]}): in-memory free_cores_mcpu = '
                                                                 f'{mem.free_cores_mcpu}, database {free}, total minus un-ended attempts {want}')
     return None
 
@@ -509,6 +548,7 @@ def run_actor_case(repo, c, step_checks, final_checks=()):
                         ('scheduled-by-real-scheduler', any(x['instance_name'] for x in w.db.tables['attempts'])),
                         ('instance-preempted-while-job-in-flight', act.preempted_in_flight > 0),
                         ('job-started-while-schedule_job-in-flight', act.started_in_flight > 0),
+                        ('ambiguous-commit-in-a-driver-call', act.ambiguous_commits > 0),
                         ('job-private-path', act.jp_scheduled > 0), ('job-private-activation-timeout', act.jp_timeouts > 0),
                         ('canceller-ready-loop-ran', 'R' in act.log),
                         ('canceller-running-loop-with-running-jobs-outside-the-cancelled-subtree', getattr(act, 'u_with_outsiders', 0) > 0),
